@@ -621,6 +621,11 @@ func (s *fstate) apply(instr ssa.Instruction, g *ssa.Function, sum *Summary, arg
 
 func (s *fstate) extCall(instr ssa.Instruction, g *ssa.Function, args []ssa.Value, res ssa.Value) {
 	name := extFullName(g)
+	if g.Synthetic == "package initializer" {
+		// the initialiser of an imported non-module package, called from a module package's
+		// initialiser: outside the model (it runs once, before any operation of the library)
+		return
+	}
 	if e, ok := lookupStd(name); ok {
 		s.applyStd(instr, name, e, args, res)
 		return
